@@ -142,8 +142,16 @@ func (ex *Exec) call(in ssa.Instruction, c *ssa.CallCommon) Val {
 		} else if callee.Object() != nil {
 			pk = callee.Object().Pkg()
 		}
+		copyOut := ex.interiorArgs(key, args, pos)
 		ex.measureSt = ex.curSt
 		r := ex.applyContract(fc, key, names, args, callee.Signature, rt, pos, pk)
+		if copyOut != nil {
+			copyOut()
+		}
+		if ex.eng.DeepVacuity && !fc.NoReturn && ex.curPC != "false" && ex == ex.root() {
+			// a callee postcondition that cannot hold at this call site would make everything after it vacuous
+			ex.vacuity("call "+callee.Name()+" returns", ex.curPC, pos)
+		}
 		// recursion / termination measure
 		ex.checkCallMeasure(fc, key, names, args, pos, pk)
 		return r
@@ -428,6 +436,13 @@ func (ex *Exec) applyContract(fc *FuncContract, key string, names []string, args
 	for _, cl := range fc.PanicsIf {
 		// the callee panics when the condition holds: the caller must exclude it (or handle it)
 		c := env.evalBool(cl.Expr)
+		if r := ex.root(); fc.Options["propagates"] != "" && (r.fc == nil || len(r.fc.PanicsIf) == 0) && ex.activeHandler() == nil {
+			// the callee's panic is meant to unwind to an entry point's recover (the parser's bailout): a caller
+			// that does not speak about panics itself is checked for the executions in which the callee returns
+			ex.em.emit(fmt.Sprintf("(assert (=> %s (not %s)))", ex.curPC, c))
+			ex.em.Assumed["a panic of "+key+" ("+cl.Text+") unwinds through "+r.key+" to a recover of an entry point; "+r.key+" is checked for the executions in which the call returns"] = true
+			continue
+		}
 		ex.panicSiteCond(pos, "callee "+key+" panics_if "+cl.Text, c, cl.Label)
 	}
 	targets, all, ok := ex.assignTargets(fc, env)
@@ -468,6 +483,12 @@ func (ex *Exec) applyContract(fc *FuncContract, key string, names []string, args
 			ex.assumeHeapWF(t.heap, fv, inner)
 		}
 		// callee may allocate
+		nt := em.newConst("top", sInt)
+		em.emit(fmt.Sprintf("(assert (>= %s %s))", nt, em.heapGet(pre, "top", sInt)))
+		post.heaps["top"] = nt
+	} else {
+		// a pure callee changes nothing the caller can observe but may still allocate its result: without a new
+		// allocation counter a postcondition fresh(result) would be unsatisfiable at every call site
 		nt := em.newConst("top", sInt)
 		em.emit(fmt.Sprintf("(assert (>= %s %s))", nt, em.heapGet(pre, "top", sInt)))
 		post.heaps["top"] = nt
